@@ -981,7 +981,7 @@ void *Backend::remap(void *ptr, size_t oldSize, size_t newSize, size_t alignment
     const size_t alignedSize = LargeObjectCache::alignToBin(newSize + userOffset);
     const size_t requestSize =
         alignUp(sizeof(MemRegion) + alignedSize + sizeof(LastFreeBlock), extMemPool->granularity);
-    if (requestSize < alignedSize) // is wrapped around?
+    if (alignedSize < newSize || requestSize < alignedSize) // is wrapped around?
         return nullptr;
     regionList.remove(oldRegion);
 
